@@ -60,6 +60,14 @@ THEOREMS = [
     "HedVerif.C06.keep_iff_not_missing",
     "HedVerif.C06.categoryHandler_spec",
     "HedVerif.C06.removal_is_tree_pruning_bounded",
+    "HedVerif.C06.removal_positions",
+    "HedVerif.Assemble.replaceRef_shape",
+    "HedVerif.Assemble.step_keeps_once",
+    "HedVerif.Assemble.spliceAll_wellformed",
+    "HedVerif.C06.several_references_wellformed",
+    "HedVerif.C06.assembled_wellformed",
+    "HedVerif.C06.row_wellformed",
+    "HedVerif.C06.once_excludes_the_finding",
     "HedVerif.C06.ref_order_blank_counterexample",
 ]
 BUDGET = {"quick": 900, "thorough": 3600}
